@@ -233,8 +233,10 @@ def meta_of(v, root_index) -> dict:
             paths.append(root_index.get(id(o), "outside"))
         idx.append({"c": cls.__name__ if isinstance(cls, type) else str(cls), "ps": sorted(paths)})
     idx.sort(key=lambda d: d["c"])
+    ctx = getattr(v, "gengy_synthesis_context", None)
     return {"has": True, "nodes": int(v.gengy_nodes), "dist": int(v.gengy_distance_to_term),
-            "wn": int(v.gengy_weighted_nodes), "ttw": idx}
+            "wn": int(v.gengy_weighted_nodes), "ttw": idx,
+            "ctx": [int(ctx.depth), int(ctx.nodes), int(ctx.expansions)] if ctx is not None else []}
 
 
 def _is_node(v) -> bool:
